@@ -138,6 +138,17 @@ Definition rx_find (pat input : str) : rxres :=
               end
   end.
 
+(* the shapes the two patterns of pather.go compile to (Properties: C36_tag_pattern, C36_blob_pattern) *)
+Definition lits (l : str) : list seg := map (fun c => SItem (IOne (AChr c))) l.
+(*  "/(.+)/" mid "/(.+)/" end  *)
+Definition tag_shape (mid end_ : str) : list seg :=
+  SItem (IOne (AChr slash)) :: SGroup [IPlus AAny] ::
+  lits (slash :: mid ++ [slash]) ++ SGroup [IPlus AAny] :: lits (slash :: end_).
+(*  "/" alg "/../(.+)/" end  *)
+Definition blob_shape (alg end_ : str) : list seg :=
+  lits (slash :: alg ++ [slash]) ++
+  SItem (IOne AAny) :: SItem (IOne AAny) :: SItem (IOne (AChr slash)) :: SGroup [IPlus AAny] :: lits (slash :: end_).
+
 (* fmt.Sprintf restricted to %s verbs *)
 Fixpoint sprintf (f : str) (args : list str) : str :=
   match f with
